@@ -313,7 +313,17 @@ func thorough(prop, repo, verif string, seed int) *thoroughResult {
 			return true, ""
 		}})
 	}
-	for _, sd := range loadSeeded(verif, prop) {
+	seededAll := loadSeeded(verif, prop)
+	// bound the cost of the tier: at most 16 seeded changes per run, chosen by rotation with VERIF_SEED so that repeated
+	// runs with different seeds cover all of them
+	if max := 16; len(seededAll) > max {
+		var pick []seeded
+		for i := 0; i < max; i++ {
+			pick = append(pick, seededAll[(seed*max+i)%len(seededAll)])
+		}
+		seededAll = pick
+	}
+	for _, sd := range seededAll {
 		sd := sd
 		jobs = append(jobs, job{sd.ID, "seeded", sd.Rule, sd.Substr, func(dir string) (bool, string) {
 			cmd := exec.Command("git", "apply", "--whitespace=nowarn", filepath.Join(verif, "seeded", sd.ID, "patch.diff"))
